@@ -577,6 +577,14 @@ def get_binsize_all_bins(ctx):
                          '(extent, record binning, coarsening) would spill into the next chromosome',
                   key=f'{R}|cooler.util.get_binsize|last-bin-ignored')
         for c in hit:
+            # a value carried out of the per-chromosome loop must be an accumulation
+            # (it depends on its own previous value), not the last iteration's value
+            for a in [x for x in T.walk(c) if x[0] == 'after' and last_bin_terms(x[4])]:
+                acc = any(y[0] == 'phi' and y[1] == a[1] and y[2] == a[2] for y in T.walk(a[4]))
+                ctx.check(acc, R, f'return#{k}.accumulated', ctx.where(fa, r), found=a[4],
+                          expected='the last-bin widths of ALL chromosomes are folded together (max / all)',
+                          reason='a plain assignment in the loop keeps only the last chromosome\'s last bin',
+                          key=f'{R}|cooler.util.get_binsize|last-bin-of-final-chromosome-only')
             # orientation: last <= common width
             oks = [x for x in T.walk(c) if x[0] == 'cmp' and x[1] in ('<=', '<') and last_bin_terms(x[2])]
             ctx.check(bool(oks), R, f'return#{k}.direction', ctx.where(fa, r), found=c,
